@@ -123,4 +123,25 @@ BoundOk == (pc = "done" /\ B # 0 /\ to = <<N + 2, 0>> /\ ILt(from, EndInstant)) 
                  /\ (exact # <<>> /\ Diff(exact, from) > B) => got = <<>>
 \* the machine always terminates within the calendar (no run-away date)
 Progress == curDate <= N + 3
+
+-----------------------------------------------------------------------------
+(* Termination of next() / of the whole stream (C04's "every call returns", at the level of the design):                  *)
+(*  - as a safety property: a variant function that every step decreases (lexicographic: days left, tiles left of the     *)
+(*    current day, position in the loop), so no behaviour of the machine is infinite whatever the (sound or unsound) hint; *)
+(*  - as a liveness property under weak fairness (MC_Iterator_live.cfg): <>(pc = "done").                                  *)
+Eats == rem # <<>> /\ cur # <<>> /\ rem[1].k = cur.k
+BoundExit == B # 0 /\ (curDate - startDate) * 86400 > B + 86400
+PcRank == CASE pc = "done" -> 0
+            [] pc = "consume" /\ Eats /\ ~BoundExit -> 1
+            [] pc = "idle" -> 2
+            [] pc = "emit" -> 3
+            [] pc = "consume" /\ ~Eats -> 4
+            [] pc = "consume" /\ Eats /\ BoundExit -> 5
+            [] OTHER -> 6
+Measure == ((N + 4 - curDate) * 3 + Len(rem)) * 7 + PcRank
+Decreases == [][Measure' < Measure /\ Measure' >= 0]_vars
+\* non-vacuity: without the loop position the variant does not decrease on every step
+DecreasesCoarse == [][(N + 4 - curDate) * 3 + Len(rem) > (N + 4 - curDate') * 3 + Len(rem')]_vars
+FairSpec == Spec /\ WF_vars(Next)
+Terminates == <>(pc = "done")
 =============================================================================
